@@ -234,17 +234,15 @@ impl RollingFileAppender {
         if writer.is_none() {
             #[cfg(feature = "verif_hooks")]
             crate::verif::fs_step("rf.open", &self.path, None)?;
+            // Truncate mode discards the old content once, when the appender is
+            // built. Every later (re)open - after a rotation, or after a rotation
+            // that failed and left the file in place - must keep what is there.
             let file = OpenOptions::new()
                 .write(true)
-                .append(self.append)
-                .truncate(!self.append)
+                .append(true)
                 .create(true)
                 .open(&self.path)?;
-            let len = if self.append {
-                file.metadata()?.len()
-            } else {
-                0
-            };
+            let len = file.metadata()?.len();
             *writer = Some(LogWriter {
                 file: BufWriter::with_capacity(1024, file),
                 len,
@@ -305,6 +303,14 @@ impl RollingFileAppenderBuilder {
 
         if let Some(parent) = appender.path.parent() {
             fs::create_dir_all(parent)?;
+        }
+
+        if !appender.append {
+            OpenOptions::new()
+                .write(true)
+                .truncate(true)
+                .create(true)
+                .open(&appender.path)?;
         }
 
         // open the log file immediately
